@@ -1068,11 +1068,67 @@ pub fn run_c11(ctx: &Ctx) -> i32 {
         if let Ok(obs) = observe(&case) {
             out.count("streams_through_user_sink");
             oracle_c08_stream(ctx, "usersink", idx, &case.describe(), &obs.stream, out);
+            // the same frame into sinks that already hold 1..7 bits: the user sink, the byte sink
+            // and the word sink must receive one and the same bit sequence, whether the frame
+            // carries a precomputed bitstream (multi-thread encoder output) or is serialised on
+            // the fly (single-thread output) - one component, one bit sequence
+            for fi in 0..obs.stream.frame_count().min(2) {
+                let Some(f) = obs.stream.frame(fi) else { continue };
+                let lead = 1 + (idx as usize + fi) % 7;
+                let mut plain = f.clone();
+                let (h, subs) = plain.clone().into_parts();
+                // a copy without a precomputed bitstream, and one with it
+                plain = flacenc::component::Frame::new(h, subs.into_iter()).unwrap_or(plain);
+                let mut pre = plain.clone();
+                pre.precompute_bitstream();
+                let r = catch(|| -> Result<Vec<(&'static str, BitVec)>, String> {
+                    let mut got = vec![];
+                    for (tag, fr) in [("on-the-fly", &plain), ("precomputed", &pre)] {
+                        let mut us = UserSink::new();
+                        us.bits.push_lsbs(0b1011011, lead);
+                        fr.write(&mut us).map_err(|e| format!("{e:?}"))?;
+                        got.push((tag, us.bits.clone()));
+                        let mut s8 = MemSink::<u8>::new();
+                        s8.write_lsbs(0b1011011u8, lead).map_err(|e| format!("{e:?}"))?;
+                        fr.write(&mut s8).map_err(|e| format!("{e:?}"))?;
+                        let mut m8 = BitVec::new();
+                        let l8 = s8.len();
+                        m8.bytes = s8.into_inner();
+                        m8.len = l8;
+                        m8.bytes.truncate((l8 + 7) / 8);
+                        got.push((tag, m8));
+                        let mut s64 = MemSink::<u64>::new();
+                        s64.write_lsbs(0b1011011u8, lead).map_err(|e| format!("{e:?}"))?;
+                        fr.write(&mut s64).map_err(|e| format!("{e:?}"))?;
+                        let l64 = s64.len();
+                        let mut by = vec![0u8; (l64 + 7) / 8 + 8];
+                        s64.write_to_byte_slice(&mut by);
+                        by.truncate((l64 + 7) / 8);
+                        got.push((tag, BitVec { bytes: by, len: l64 }));
+                    }
+                    Ok(got)
+                });
+                out.evaluations += 1;
+                out.count("frames_into_unaligned_sinks");
+                match r {
+                    Ok(Ok(got)) => {
+                        let names = ["user sink", "MemSink<u8>", "MemSink<u64>"];
+                        for (i, (tag, bits)) in got.iter().enumerate().skip(1) {
+                            if bits.len != got[0].1.len || bits.bytes != got[0].1.bytes {
+                                out.violation(format!("C11|component-bits-differ|Frame@bit{lead}"), format!("frame {fi} written into sinks holding {lead} bits: the {} ({tag}) received {} bits, the user sink (on-the-fly) {} bits, and the sequences differ", names[i % 3], bits.len, got[0].1.len), rpj(ctx, "usersink", idx, case.describe()));
+                                break;
+                            }
+                        }
+                    }
+                    Ok(Err(e)) => out.violation("C11|frame-write-fails", e, rpj(ctx, "usersink", idx, case.describe())),
+                    Err(p) => out.violation(format!("C11|panic|{}", p.site()), p.short(), rpj(ctx, "usersink", idx, case.describe())),
+                }
+            }
         }
     });
     let fin = Finish {
         level: "exploration",
-        rule: "model = packed MSB-first bit string; after EVERY operation of a history both MemSink<u8> and MemSink<u64> must agree with it on len(), as_slice() (incl. zero tail), write_to_byte_slice(), to_bitstring(), into_inner(). 'exhaustive' enumerates start offset 0..=63 x operand type u8/u16/u32/u64 x n in 0..=width x {write_msbs, write_lsbs} x 4 values (+ write<T>, write_twoc at every width, write_zeros 0..=200/2^10/2^16+3, align, write_bytes_aligned), each followed by a probe write; 'random' = mixed histories of 1..200 operations; 'usersink' = every component of generated streams written to a sink implementing only the required methods must receive the bits a ByteSink receives",
+        rule: "model = packed MSB-first bit string; after EVERY operation of a history both MemSink<u8> and MemSink<u64> must agree with it on len(), as_slice() (incl. zero tail), write_to_byte_slice(), to_bitstring(), into_inner(). 'exhaustive' enumerates start offset 0..=63 x operand type u8/u16/u32/u64 x n in 0..=width x {write_msbs, write_lsbs} x 4 values (+ write<T>, write_twoc at every width, write_zeros 0..=200/2^10/2^16+3, align, write_bytes_aligned), each followed by a probe write; 'random' = mixed histories of 1..200 operations; 'usersink' = every component of generated streams written to a sink implementing only the required methods must receive the bits a ByteSink receives; frames are also written into the three sink types holding 1..7 bits already, with and without a precomputed bitstream: one bit sequence",
         assumptions: vec!["write_twoc is exercised for widths 1..=T::BITS with values representable in that width (its documented domain)".into()],
         exhaustive: Some(ctx.only.is_none()),
         floors: vec![],
